@@ -189,8 +189,8 @@ def specials(rnd, n):
 def run(ctx):
     fl = import_library()
     ctx.level = "exploration"
-    m = ctx.scale(4, 6)
-    nrand = ctx.scale(2000, 200_000 // max(1, ctx.nshards))
+    m = ctx.scale(4, 7)
+    nrand = ctx.scale(2000, 1_000_000 // max(1, ctx.nshards))
     ctx.rule = (
         f"every Norm.compute call observed: element compared with the scalar formula; laws checked over the recorded (a,b)->result "
         f"table. Workload: exhaustive dyadic grid k/2^{m} pairs and triples per norm, random doubles biased to 0, 1, a+b=1±ulp, "
